@@ -378,6 +378,19 @@ pub fn call_lazy<T, F: FnOnce() -> T>(f: F) -> T {
 }
 
 /// Custom joiner (eager branches): logs its arity, evaluates branches in order, stamps values.
+/// An operand spelled as a macro call (`idm!(p(3))`): expands to its argument.
+#[macro_export]
+macro_rules! idm {
+    ($e:expr) => {
+        $e
+    };
+}
+
+/// Always true; keeps `if yes() { .. } else { .. }` operands from being folded away syntactically.
+pub fn yes() -> bool {
+    true
+}
+
 #[macro_export]
 macro_rules! jn {
     ($($b:expr),* $(,)?) => {{
